@@ -1,28 +1,29 @@
 package main
 
 import (
-	"bytes"
 	"fmt"
 	"go/ast"
 	"go/constant"
-	"go/parser"
-	"go/printer"
-	"go/token"
 	"go/types"
 	"path/filepath"
 	"strings"
 )
 
-// C20Skel: statement skeletons of the functions the C20 transition system is written
-// against (DESIGN.md §4, T-gen).  For every listed function the translator emits the
-// ordered list of its statements, one canonical line per simple statement (comments
-// stripped, white space collapsed) and `… {` / `}` markers for compound statements and
-// for a function literal assigned to a variable.  Lean holds the expected lists; any
-// edit to the order of pool Gets, deferred Puts, the serve call, SetImplicitSuccess or
-// the "finished" log is a broken obligation (`skel_*` theorems in Theorems/C20.lean).
+// C20Skel: NORMAL-FORM skeletons of the functions the C20 transition system is written
+// against (DESIGN.md §4, T-gen).  For every listed function the translator emits the list
+// of canonical lines produced by the nf engine (c20norm.go, c20norm_stmt.go — read the
+// comment at the top of c20norm.go for what a line records and what is normalised away).
+// Lean holds the expected lists; any edit to the order of pool Gets and their first uses,
+// of the deferred Puts relative to the "finished" record, of the serve call,
+// SetImplicitSuccess or the request copy is a broken obligation (`skel_*` theorems in
+// Theorems/C20.lean), while renaming, extracting or inlining helpers, grouping the pooled
+// objects in a struct, merging the deferred Puts into one deferred helper, re-spelling the
+// loop of httputil.Wrap or `cmp.Or` are not.
 //
-// The subset is deliberately small: a statement kind not listed in skelStmt makes the
-// translator fail loudly.
+// The functions of one package listed here are the TARGETS of that package: a call from
+// one target to another stays a `call` line (the callee's own skeleton is pinned
+// separately); every other function or method of the package is inlined into its callers.
+// A construct outside the subset makes the translator fail loudly.
 
 type c20SkelFn struct {
 	dir  string // package directory under the repo
@@ -36,8 +37,6 @@ var c20SkelFns = []c20SkelFn{
 	{"netutil/httputil", "", "CopyRequestTo", "copyRequestTo"},
 	{"netutil/httputil", "", "NewLogMiddleware", "newLogMiddleware"},
 	{"netutil/httputil", "LogMiddleware", "Wrap", "logmwWrap"},
-	{"netutil/httputil", "LogMiddleware", "logFinished", "logFinished"},
-	{"netutil/httputil", "LogMiddleware", "attrsSlicePtr", "attrsSlicePtr"},
 	{"netutil/httputil", "CodeRecorderResponseWriter", "Reset", "crwReset"},
 	{"netutil/httputil", "CodeRecorderResponseWriter", "SetImplicitSuccess", "crwSetImplicitSuccess"},
 	{"netutil/httputil", "CodeRecorderResponseWriter", "WriteHeader", "crwWriteHeader"},
@@ -47,117 +46,6 @@ var c20SkelFns = []c20SkelFn{
 	{"syncutil", "", "NewSlicePool", "newSlicePool"},
 	{"syncutil", "Pool", "Get", "poolGet"},
 	{"syncutil", "Pool", "Put", "poolPut"},
-}
-
-func c20SkelText(fset *token.FileSet, n ast.Node) string {
-	var b bytes.Buffer
-	_ = printer.Fprint(&b, fset, n)
-	s := strings.Join(strings.Fields(b.String()), " ")
-	for _, r := range [][2]string{{"( ", "("}, {" )", ")"}, {",)", ")"}, {"{ ", "{"}, {" }", "}"}, {",}", "}"}} {
-		s = strings.ReplaceAll(s, r[0], r[1])
-	}
-	return s
-}
-
-func c20HasFuncLit(n ast.Node) (found bool) {
-	ast.Inspect(n, func(x ast.Node) bool {
-		if _, ok := x.(*ast.FuncLit); ok {
-			found = true
-		}
-		return !found
-	})
-	return found
-}
-
-type c20SkelEmitter struct {
-	fset *token.FileSet
-	out  []string
-}
-
-func (e *c20SkelEmitter) block(stmts []ast.Stmt) error {
-	for _, s := range stmts {
-		if err := e.stmt(s); err != nil {
-			return err
-		}
-	}
-	return nil
-}
-
-func (e *c20SkelEmitter) stmt(s ast.Stmt) error {
-	switch s := s.(type) {
-	case *ast.AssignStmt:
-		// `f := func(…) {…}`: open a nested block
-		if len(s.Rhs) == 1 {
-			if fl, ok := s.Rhs[0].(*ast.FuncLit); ok {
-				e.out = append(e.out, c20SkelText(e.fset, s.Lhs[0])+" "+s.Tok.String()+" "+c20SkelText(e.fset, fl.Type)+" {")
-				if err := e.block(fl.Body.List); err != nil {
-					return err
-				}
-				e.out = append(e.out, "}")
-				return nil
-			}
-		}
-		if c20HasFuncLit(s) {
-			return fmt.Errorf("function literal inside %q is outside the skeleton subset", c20SkelText(e.fset, s))
-		}
-		e.out = append(e.out, c20SkelText(e.fset, s))
-	case *ast.ReturnStmt:
-		// `return &T{… func literals …}` (constructors): print as one line
-		e.out = append(e.out, c20SkelText(e.fset, s))
-	case *ast.ExprStmt, *ast.DeferStmt, *ast.IncDecStmt, *ast.DeclStmt, *ast.GoStmt, *ast.SendStmt, *ast.BranchStmt:
-		if c20HasFuncLit(s) {
-			return fmt.Errorf("function literal inside %q is outside the skeleton subset", c20SkelText(e.fset, s))
-		}
-		e.out = append(e.out, c20SkelText(e.fset, s))
-	case *ast.IfStmt:
-		hdr := "if "
-		if s.Init != nil {
-			hdr += c20SkelText(e.fset, s.Init) + "; "
-		}
-		e.out = append(e.out, hdr+c20SkelText(e.fset, s.Cond)+" {")
-		if err := e.block(s.Body.List); err != nil {
-			return err
-		}
-		switch el := s.Else.(type) {
-		case nil:
-			e.out = append(e.out, "}")
-		case *ast.BlockStmt:
-			e.out = append(e.out, "} else {")
-			if err := e.block(el.List); err != nil {
-				return err
-			}
-			e.out = append(e.out, "}")
-		default:
-			return fmt.Errorf("else-if chains are outside the skeleton subset")
-		}
-	case *ast.ForStmt:
-		hdr := "for "
-		if s.Init != nil {
-			hdr += c20SkelText(e.fset, s.Init)
-		}
-		hdr += "; "
-		if s.Cond != nil {
-			hdr += c20SkelText(e.fset, s.Cond)
-		}
-		hdr += "; "
-		if s.Post != nil {
-			hdr += c20SkelText(e.fset, s.Post)
-		}
-		e.out = append(e.out, hdr+" {")
-		if err := e.block(s.Body.List); err != nil {
-			return err
-		}
-		e.out = append(e.out, "}")
-	case *ast.BlockStmt:
-		e.out = append(e.out, "{")
-		if err := e.block(s.List); err != nil {
-			return err
-		}
-		e.out = append(e.out, "}")
-	default:
-		return fmt.Errorf("statement kind %T is outside the skeleton subset", s)
-	}
-	return nil
 }
 
 func c20RecvName(fd *ast.FuncDecl) string {
@@ -205,65 +93,55 @@ func genC20Skel(repo string) (string, error) {
 	var b strings.Builder
 	b.WriteString("namespace GolibsVerif.Gen.C20Skel\n\n")
 
-	// the length of the pooled attribute slices
-	pkg, _, _, _, err := typeCheckDir(filepath.Join(repo, "netutil/httputil"))
-	if err != nil {
-		return "", err
+	pkgs := map[string]*nfPkg{}
+	var dirs []string
+	for _, fn := range c20SkelFns {
+		if _, done := pkgs[fn.dir]; done {
+			continue
+		}
+		p, err := nfLoad(filepath.Join(repo, fn.dir))
+		if err != nil {
+			return "", err
+		}
+		pkgs[fn.dir] = p
+		dirs = append(dirs, fn.dir)
 	}
-	c, ok := pkg.Scope().Lookup("logMwAttrNum").(*types.Const)
+	// the targets of a package are known before any of them is translated
+	for _, fn := range c20SkelFns {
+		p := pkgs[fn.dir]
+		for f, d := range p.decls {
+			if d.Name.Name == fn.name && c20RecvName(d) == fn.recv {
+				p.targets[f] = true
+			}
+		}
+	}
+
+	// the length of the pooled attribute slices
+	c, ok := pkgs["netutil/httputil"].pkg.Scope().Lookup("logMwAttrNum").(*types.Const)
 	if !ok || c.Val().Kind() != constant.Int {
 		return "", fmt.Errorf("httputil.logMwAttrNum is not an integer constant any more")
 	}
 	fmt.Fprintf(&b, "/-- `httputil.logMwAttrNum` -/\ndef logMwAttrNum : Nat := %s\n\n", c.Val().ExactString())
 
-	parsed := map[string][]*ast.File{}
-	fsets := map[string]*token.FileSet{}
 	for _, fn := range c20SkelFns {
-		if _, done := parsed[fn.dir]; !done {
-			fset := token.NewFileSet()
-			matches, _ := filepath.Glob(filepath.Join(repo, fn.dir, "*.go"))
-			var files []*ast.File
-			for _, m := range matches {
-				if strings.HasSuffix(m, "_test.go") || strings.HasSuffix(m, "_verif.go") {
-					continue
-				}
-				// comments are not parsed, so they cannot leak into the skeleton
-				f, perr := parser.ParseFile(fset, m, nil, parser.SkipObjectResolution)
-				if perr != nil {
-					return "", perr
-				}
-				files = append(files, f)
-			}
-			parsed[fn.dir], fsets[fn.dir] = files, fset
-		}
-		var found *ast.FuncDecl
-		for _, f := range parsed[fn.dir] {
-			for _, d := range f.Decls {
-				fd, isFn := d.(*ast.FuncDecl)
-				if isFn && fd.Name.Name == fn.name && c20RecvName(fd) == fn.recv {
-					if found != nil {
-						return "", fmt.Errorf("%s: %s.%s declared twice", fn.dir, fn.recv, fn.name)
-					}
-					found = fd
-				}
-			}
-		}
-		if found == nil || found.Body == nil {
-			return "", fmt.Errorf("%s: function %s.%s not found", fn.dir, fn.recv, fn.name)
-		}
-		e := &c20SkelEmitter{fset: fsets[fn.dir]}
-		if err = e.block(found.Body.List); err != nil {
+		lines, err := pkgs[fn.dir].target(fn.recv, fn.name)
+		if err != nil {
 			return "", fmt.Errorf("%s %s.%s: %w", fn.dir, fn.recv, fn.name, err)
 		}
-		fmt.Fprintf(&b, "/-- statements of `%s` `%s.%s` -/\ndef %s : List String := [\n", fn.dir, fn.recv, fn.name, fn.lean)
-		for i, l := range e.out {
+		fmt.Fprintf(&b, "/-- normal form of `%s` `%s.%s` -/\ndef %s : List String := [\n", fn.dir, fn.recv, fn.name, fn.lean)
+		for i, l := range lines {
 			sep := ","
-			if i == len(e.out)-1 {
+			if i == len(lines)-1 {
 				sep = ""
 			}
 			fmt.Fprintf(&b, "  %s%s\n", c20LeanStrLit(l), sep)
 		}
 		b.WriteString("]\n\n")
+	}
+	for _, d := range dirs {
+		if err := pkgs[d].checkPoolUses(); err != nil {
+			return "", fmt.Errorf("%s: %w", d, err)
+		}
 	}
 	b.WriteString("end GolibsVerif.Gen.C20Skel\n")
 	return b.String(), nil
